@@ -124,9 +124,13 @@
              by key, values with the same hash code, and lack the same keys.
 -/
 import JdProofs.DiffPatchList
+import JdProofs.PathSites
 import JdProofs.StrictPatch
 import JdProofs.SetDiffPatch
 import JdProofs.DiffPatchKeys
+import JdProofs.MergePrecision
+import JdProofs.KeysMergeB
+import JdProofs.KeysMerge
 
 set_option autoImplicit false
 
@@ -793,5 +797,97 @@ example (F : FloatEq0) (L : FloatLaws) :
       equals [.setKeys ["id", "k"]] r DPK.ExampleB.exD = true ∧
       equivB [.setKeys ["id", "k"]] r DPK.ExampleB.exD = true :=
   DPK.ExampleB.ex3_run F L
+
+/-! ### "the diff value exactly as the library returns it": stored paths are copies
+
+   The functional model treats a hunk's path as a value. The Go code passes path SLICES down the
+   recursion (`append(path, PathKey(k))`, writing into the shared backing array when it has spare
+   capacity) and stores them in the hunks it returns. `Gen.pathSites` (regenerated from the Go source on
+   every run, tools/pathfacts) lists the expression at every such site of v2/; the discipline checked
+   here — stored paths are copies, only safe expressions are evaluated — is the hypothesis `Act.okL` of
+   the refinement theorem `PathHeap.run_faithful` (Go slice semantics = functional model). -/
+
+/-- v2: every path stored in a hunk by the diff-building code is a copy; every path expression is safe -/
+theorem v2_stored_paths_are_copies :
+    (Gen.pathSites.filter (fun s => Jd.PathSites.isV2 s && !Jd.PathSites.isWrite s)).all Jd.PathSites.ok = true :=
+  Jd.PathSites.v2_diff_paths_ok
+
+/-! ## MERGE strategy together with a Precision option (list reading; `jd -f merge -precision eps`)
+
+   In MERGE mode arrays are compared WITH the precision (an array within eps of its counterpart is
+   kept), scalars WITHOUT it (a number within eps is still replaced: KF-C05-precision), so the patched
+   document is `Equals` to `b` under the options but not structurally equal to it. The proof needs no
+   transitivity of "within eps". `nonnegBits eps` (the sign bit is clear and eps is not NaN/Inf) is
+   needed: with a negative precision no number Equals itself (`MP.Witness.negative_precision_breaks`;
+   the CLI accepts `-precision=-1`). -/
+
+/-- **C01, MERGE with any non-negative Precision, list reading, in memory** (either variant `sw`) -/
+theorem merge_diff_then_patch_list_precision (L : FloatLaws) (sw : Bool) (o : Opts)
+    (hm : isMerge o = true) (ho : dispatchTag o = .list)
+    (hp : Jd.Spec.nonnegBits (precOf o) = true) (M : Jd.DPL.PrecMono o) (a b : Json)
+    (haw : a.wf = true) (har : a.rawDoc = true)
+    (hbw : b.wf = true) (hbr : b.rawDoc = true) (hbn : b.nullFree = true)
+    (hbv : Jd.Merge.objVoidFree b = true) (hbf : b.finiteNums = true) :
+    ∃ r, patchAll sw a (diffM o a b) = .ok r ∧ equals o r b = true ∧ equivB o r b = true :=
+  Jd.MP.merge_diff_then_patch_list_precision L sw o hm ho hp M a b haw har hbw hbr hbn hbv hbf
+
+/-- the same without `b.nullFree`: applied in memory a merge hunk carrying `null` stores `null` (only void
+    deletes), so C01 in memory does not need null-free documents (new also for eps = 0) -/
+theorem merge_diff_then_patch_list_precision_nulls (L : FloatLaws) (sw : Bool) (o : Opts)
+    (hm : isMerge o = true) (ho : dispatchTag o = .list)
+    (hp : Jd.Spec.nonnegBits (precOf o) = true) (M : Jd.DPL.PrecMono o) (a b : Json)
+    (haw : a.wf = true) (har : a.rawDoc = true) (hbw : b.wf = true) (hbr : b.rawDoc = true)
+    (hbv : Jd.Merge.objVoidFree b = true) (hbf : b.finiteNums = true) :
+    ∃ r, patchAll sw a (diffM o a b) = .ok r ∧ equals o r b = true ∧ equivB o r b = true :=
+  Jd.MP.merge_diff_then_patch_list_precision_nulls L sw o hm ho hp M a b haw har hbw hbr hbv hbf
+
+/-- the headline for `a.Patch(a.Diff(b, MERGE, Precision(eps)))` — the option list `jd -f merge -precision eps` builds -/
+theorem patchM_diffM_MERGE_precision (L : FloatLaws) (eps : UInt64)
+    (hp : Jd.Spec.nonnegBits eps = true) (M : Jd.DPL.PrecMono [.merge, .prec eps]) (a b : Json)
+    (haw : a.wf = true) (har : a.rawDoc = true) (hbw : b.wf = true) (hbr : b.rawDoc = true)
+    (hbn : b.nullFree = true) (hbv : Jd.Merge.objVoidFree b = true) (hbf : b.finiteNums = true) :
+    ∃ r, patchM a (diffM [.merge, .prec eps] a b) = .ok r ∧
+      equals [.merge, .prec eps] r b = true ∧ equivB [.merge, .prec eps] r b = true :=
+  Jd.MP.patchM_diffM_MERGE_precision L eps hp M a b haw har hbw hbr hbn hbv hbf
+
+/-! ## SetKeys together with MERGE (`jd -setkeys k -f merge`) — proofs in JdProofs/KeysMerge.lean, KeysMergeB.lean (ns `Jd.KM`)
+
+   Under MERGE two arrays that are not `Equals` are replaced wholesale; arrays that ARE `Equals` still go
+   through the keyed set diff, which sub-diffs the last bearers of each identity in merge mode BELOW a
+   keyed path element — and a merge hunk through a set element can never be applied or rendered
+   (`KM.patchNode_merge_bad`). The decidable `KM.clash o a b` is exactly that class: C01 holds IFF there is no
+   clash; with a clash `Patch` and `RenderMerge` return an error. A clash needs two object members with the
+   same identity and different content in one array of `a` and of `b` — outside the SetKeys precondition
+   (`KM.merge_diff_then_patch_setkeys_distinct`), or the known finding KF-C01-identperm
+   (`KM.Witness.identperm_merge_breaks`); both witnesses replay on the Go library. -/
+
+/-- **C01, SetKeys + MERGE, in memory**: holds exactly when there is no clash -/
+theorem merge_diff_then_patch_setkeys_iff (F : FloatEq0) (L : FloatLaws) (sw : Bool) (o : Opts)
+    (hmg : isMerge o = true) (hd : dispatchTag o = .set) (hp : precOf o = 0) (a b : Json)
+    (ha : a.setDoc = true) (hb : b.setDoc = true)
+    (HF : HashFaithful o (subterms a ++ subterms b))
+    (hbn : b.nullFree = true) (hbv : Jd.Merge.objVoidFree b = true) :
+    (∃ r, patchAll sw a (diffM o a b) = .ok r ∧ equals o r b = true ∧ equivB o r b = true)
+      ↔ Jd.KM.clash o a b = false :=
+  Jd.KM.merge_diff_then_patch_setkeys_iff F o hmg hd hp a b ha hb HF L sw hbn hbv
+
+/-- the sufficient form: identities determine hash codes within each array of `b` (implied by the SetKeys
+    precondition on `b`, `KM.identInj_of_keyedDistinct`); `keysOf o` is arbitrary, so this also covers the option
+    list the CLI builds for `-set -setkeys k -f merge` -/
+theorem merge_diff_then_patch_setkeys (F : FloatEq0) (L : FloatLaws) (sw : Bool) (o : Opts)
+    (hmg : isMerge o = true) (hd : dispatchTag o = .set) (hp : precOf o = 0) (a b : Json)
+    (ha : a.setDoc = true) (hb : b.setDoc = true) (hbn : b.nullFree = true)
+    (hbv : Jd.Merge.objVoidFree b = true) (HF : HashFaithful o (subterms a ++ subterms b))
+    (IB : Jd.DES.IdentInj o (subterms b)) :
+    ∃ r, patchAll sw a (diffM o a b) = .ok r ∧ equals o r b = true ∧ equivB o r b = true :=
+  Jd.KM.merge_diff_then_patch_setkeys F L sw o hmg hd hp a b ha hb hbn hbv HF IB
+
+/-- with a clash the library's own diff cannot be applied -/
+theorem setkeys_merge_clash_is_rejected (F : FloatEq0) (o : Opts)
+    (hmg : isMerge o = true) (hd : dispatchTag o = .set) (hp : precOf o = 0) (a b : Json)
+    (ha : a.setDoc = true) (hb : b.setDoc = true)
+    (HF : HashFaithful o (subterms a ++ subterms b)) (sw : Bool) (hc : Jd.KM.clash o a b = true) :
+    patchAll sw a (diffM o a b) = .err :=
+  Jd.KM.patch_err_of_clash F o hmg hd hp a b ha hb HF sw hc
 
 end Jd.Props.C01
